@@ -58,6 +58,8 @@ def conc(v, m, depth=0):
         k = min(n, MAX_SEQ)
         return {"__t": "seq", "kind": v.kind, "len": n, "v": [conc(v.elem(z3.IntVal(i)), m, depth + 1) for i in range(k)]}
     if isinstance(v, VObj):
+        if id(v) in GLOBAL_IDS and GLOBAL_IDS[id(v)][0] is v:
+            return {"__t": "global", "qual": GLOBAL_IDS[id(v)][1]}
         if v.cls.is_enum:
             return {"__t": "enum", "cls": v.cls.qualname, "name": v.fields.get("name")}
         return {"__t": "obj", "cls": v.cls.qualname, "fields": {k: conc(x, m, depth + 1) for k, x in v.fields.items() if not k.startswith("__")}}
@@ -72,6 +74,9 @@ def conc(v, m, depth=0):
     if isinstance(v, Unknown):
         return {"__t": "unknown"}
     return {"__t": "repr", "v": repr(v)}
+
+
+GLOBAL_IDS = {}  # id(VObj) -> (VObj, "module:NAME") for values made by the Global descriptor
 
 
 def _unescape(s: str) -> str:
@@ -138,6 +143,8 @@ def snapshot(v, memo=None):
         return tuple(snapshot(x, memo) for x in v)
     if isinstance(v, set):
         return set(v)
+    if isinstance(v, VObj) and id(v) in GLOBAL_IDS and GLOBAL_IDS[id(v)][0] is v:
+        return v
     if isinstance(v, VObj) and not v.cls.is_enum:
         o = VObj(v.cls, {})
         memo[id(v)] = o
